@@ -279,6 +279,7 @@ type nhOp struct {
 type nhIssued struct {
 	Path   string
 	Fileid uint64
+	Gen    int // generation of the object at Path when the value was first issued
 }
 
 type nhState struct {
@@ -289,6 +290,7 @@ type nhState struct {
 	known  map[string]uint64   // model client: path -> latest handle issued for it
 	first  map[uint64]nhIssued // ghost: first path / fileid each handle value was issued for
 	cause  map[uint64]string   // ghost: how a handle value came to be reissued for another path
+	gen    map[string]int      // ghost: how many objects have been created or removed at a path
 	dirs   []string
 	serial int
 }
@@ -311,7 +313,7 @@ func nhNew(max int, prop string, c *vCtx) *nhState {
 	})
 	vMust(err, "env")
 	e.nfs.fileMap.maxHandles = max
-	return &nhState{e: e, max: max, prop: prop, c: c, known: map[string]uint64{}, first: map[uint64]nhIssued{}, cause: map[uint64]string{}}
+	return &nhState{e: e, max: max, prop: prop, c: c, known: map[string]uint64{}, first: map[uint64]nhIssued{}, cause: map[uint64]string{}, gen: map[string]int{}}
 }
 
 func (s *nhState) key() string {
@@ -342,7 +344,10 @@ func (s *nhState) key() string {
 		}
 		sort.Slice(fids, func(i, j int) bool { return fids[i] < fids[j] })
 		for _, id := range fids {
-			fmt.Fprintf(&sb, "|%d:%s", id, s.first[id].Path)
+			fmt.Fprintf(&sb, "|%d:%s:%d", id, s.first[id].Path, s.first[id].Gen)
+		}
+		for _, p := range vSortedKeys(s.gen) {
+			fmt.Fprintf(&sb, "|g%s=%d", p, s.gen[p])
 		}
 	}
 	sb.WriteString("|" + s.e.fs.DumpString())
@@ -377,6 +382,10 @@ func (s *nhState) enabled() []nhOp {
 	}
 	if s.prop == "C06" {
 		ops = append(ops, nhOp{Kind: "unexport"})
+		if _, ok := s.known["/"]; ok {
+			// a name reused for another object: file n removed, directory n made (and back)
+			ops = append(ops, nhOp{Kind: "remove", Dir: "/", Name: "n"}, nhOp{Kind: "mkdir", Dir: "/", Name: "n"})
+		}
 	}
 	return ops
 }
@@ -447,7 +456,19 @@ func (s *nhState) apply(op nhOp, check bool, hist []nhOp) {
 			}
 			issued = append(issued, nhIssue{pjoin(actualDir, op.Name), h, fid})
 		}
+	case "remove":
+		var a wire.Enc
+		a.FH(s.known[op.Dir]).Str(op.Name)
+		res, _, err := s.e.nfsCall(wire.REMOVE, a.B)
+		if err != nil || res == nil {
+			fail("REMOVE", fmt.Errorf("%v (res=%v)", err, res))
+			return
+		}
+		if res.Status == 0 {
+			s.gen[pjoin(actualDir, op.Name)]++
+		}
 	case "create", "mkdir", "symlink":
+		_, existedErr := s.e.fs.Inner().Lstat(pjoin(actualDir, op.Name))
 		var a wire.Enc
 		a.FH(s.known[op.Dir]).Str(op.Name)
 		proc := uint32(wire.CREATE)
@@ -465,6 +486,9 @@ func (s *nhState) apply(op nhOp, check bool, hist []nhOp) {
 		if err != nil || res == nil {
 			fail(op.Kind, fmt.Errorf("%v (res=%v)", err, res))
 			return
+		}
+		if res.Status == 0 && existedErr != nil {
+			s.gen[pjoin(actualDir, op.Name)]++ // a new object now lives at this path
 		}
 		if res.Status == 0 && res.FH != nil {
 			h, _ := wire.FHVal(res.FH)
@@ -531,7 +555,7 @@ func (s *nhState) apply(op nhOp, check bool, hist []nhOp) {
 			reissues = append(reissues, reissue{is, fp.Path, via})
 		}
 		if _, ok := s.first[is.h]; !ok {
-			s.first[is.h] = nhIssued{is.path, is.fileid}
+			s.first[is.h] = nhIssued{is.path, is.fileid, s.gen[is.path]}
 		}
 	}
 	if !check {
@@ -630,6 +654,11 @@ func (s *nhState) apply(op nhOp, check bool, hist []nhOp) {
 					served = lo.Path
 				}
 			}
+			if served == "" && res.Status == 0 && s.gen[fp.Path] != fp.Gen {
+				// same path, but the object the value was issued for is gone and another one lives there
+				s.c.violation("C06|old-handle-served-against-replaced-object|seam=nfs|via=path-reuse",
+					fmt.Sprintf("handle value %d was given out for the object then at %s; that object was removed and another created at the same path, and a GETATTR with the old value is answered OK with the new object's attributes (type %d)", id, fp.Path, res.Attr.Type), cs())
+			}
 			if served != "" {
 				cause := s.cause[id]
 				if cause == "" {
@@ -649,7 +678,17 @@ func nhExplore(c *vCtx, prop string) {
 		depth = 4
 		maxes = []int{1, 2, 3, 4, 6}
 	}
-	for i, m := range maxes {
+	type nhCfg struct{ max, depth int }
+	var cfgs []nhCfg
+	for _, m := range maxes {
+		cfgs = append(cfgs, nhCfg{m, depth})
+	}
+	if prop == "C06" && !c.thorough() {
+		// a name reused for another object needs four requests (MNT, CREATE n, REMOVE n, MKDIR n)
+		cfgs = append(cfgs, nhCfg{8, 4})
+	}
+	for i, cf := range cfgs {
+		m, depth := cf.max, cf.depth
 		if !c.mine(i + 100) {
 			continue
 		}
